@@ -9,16 +9,10 @@ use crate::props::stack::*;
 use crate::rng::Rng;
 use crate::scenario::*;
 
-pub fn gen_stack_scenario(rng: &mut Rng, tier: Tier, stats: &mut GenStats, prop: &str, max_layers: usize) -> Scenario {
-    let mut g = Gen::new(rng, tier);
-    let links = if g.rng.chance(2, 10) { LinkMode::Safe } else { LinkMode::None };
-    let tree = g.tree(links);
-    let model = Model::from_tree(&tree).unwrap();
-    let cwd = g.pick_dir(&model, 50);
-    let has_links = tree.iter().any(|n| matches!(n.kind, Kind::Link { .. }));
-    let base = g.pick_dir(&model, 55);
+fn stack_walker(g: &mut Gen, model: &Model, tree: &[Node], has_links: bool, stats: &mut GenStats, max_layers: usize) -> Walker {
+    let base = g.pick_dir(model, 55);
     let link = if has_links && g.rng.chance(1, 2) { Link::ReadTarget } else { Link::ReadFile };
-    let source = underlying_source(&mut g, &model, &base, stats);
+    let source = underlying_source(g, model, &base, stats);
     let mut w = Walker {
         source,
         base,
@@ -32,8 +26,8 @@ pub fn gen_stack_scenario(rng: &mut Rng, tier: Tier, stats: &mut GenStats, prop:
     };
     let mut victims = Vec::new();
     w.layers = layers(
-        &mut g,
-        &model,
+        g,
+        model,
         &w,
         &StackOpts {
             max_layers,
@@ -55,19 +49,35 @@ pub fn gen_stack_scenario(rng: &mut Rng, tier: Tier, stats: &mut GenStats, prop:
             _ => Depth::MinMax(g.rng.range(1, deepest), g.rng.range(1, deepest + 1)),
         };
     }
+    w
+}
+
+pub fn gen_stack_scenario(rng: &mut Rng, tier: Tier, stats: &mut GenStats, prop: &str, max_layers: usize, max_walkers: usize) -> Scenario {
+    let mut g = Gen::new(rng, tier);
+    g.spine_odds = 15;
+    let links = if g.rng.chance(2, 10) { LinkMode::Safe } else { LinkMode::None };
+    let tree = g.tree(links);
+    let model = Model::from_tree(&tree).unwrap();
+    let cwd = g.pick_dir(&model, 50);
+    let has_links = tree.iter().any(|n| matches!(n.kind, Kind::Link { .. }));
+    // Stacks must not share hidden state: sometimes two independent stacks are advanced alternately.
+    let nw = if max_walkers > 1 && g.rng.chance(1, 8) { 2 } else { 1 };
+    let walkers: Vec<Walker> = (0..nw).map(|_| stack_walker(&mut g, &model, &tree, has_links, stats, max_layers)).collect();
+    let schedule = interleaving(g.rng, nw, tree.len());
     Scenario {
         prop: prop.into(),
         seed: 0,
         tree,
         cwd,
-        walkers: vec![w],
+        walkers,
         mutations: vec![],
-        schedule: vec![],
+        schedule,
+        triggers: vec![],
     }
 }
 
 pub fn generate(rng: &mut Rng, tier: Tier, stats: &mut GenStats) -> Scenario {
-    gen_stack_scenario(rng, tier, stats, "C13", 4)
+    gen_stack_scenario(rng, tier, stats, "C13", 4, 2)
 }
 
 pub fn check(sc: &Scenario, env: &mut Env) -> Result<Outcome, HarnessError> {
